@@ -146,6 +146,23 @@ def _q_worker(args):
     return out
 
 
+def run_c06(pid, tier, seed):
+    """store-level histories + the factory corollary: random factories (fan-in, FIRST_AVAILABLE) compared with the
+    factory model on the item movements, with the 'oldest available item leaves a FIFO edge first' clause"""
+    res = run_l1(pid, tier, seed)
+    nf = 640 if tier == "quick" else 24000
+    with multiprocessing.Pool(16) as pool:
+        fouts = pool.map(_f_worker, [("C06", nf // 16, seed * 173 + k, []) for k in range(16)])
+    ftags = collections.Counter()
+    for o in fouts:
+        res["evaluations"] += o["evals"]; res["traces"] += o["evals"]; res["distinct_nontrivial"] += o["sigs"]
+        res["disagreements"] += o["dis"]; res["violations"] += o["viol"]
+        ftags.update(o["tags"])
+    res["rule"] += "; plus random factories (see C03) compared on their timed item movements, with the FIFO-edge clause of the factory oracle"
+    res["distribution"]["factories_reaching"] = dict(ftags)
+    return res
+
+
 def run_c05(pid, tier, seed):
     res = run_l1(pid, tier, seed)
     n = 600 if tier == "quick" else 60000
@@ -398,6 +415,7 @@ def run_belt(pid, tier, seed):
 # which kinds of canonical output lines concern which property (first differing line of a disagreement)
 F_LINES = {
     "C03": {"G", "P", "T", "D", "R", "NODE", "EDGE"},
+    "C06": {"P", "T"},
     "C08": {"P", "T", "W"},
     "C09": {"P", "D", "G", "T"},
     "C10": {"P", "T", "R"},
@@ -614,7 +632,7 @@ SPECS = {
     "C02": dict(run=run_l1, trusted=L1_TRUST),
     "C04": dict(run=run_l1, trusted=L1_TRUST),
     "C05": dict(run=run_c05, trusted=L1_TRUST),
-    "C06": dict(run=run_l1, trusted=L1_TRUST),
+    "C06": dict(run=run_c06, trusted=L1_TRUST + ["factory corollary (FIRST_AVAILABLE nodes reserving on all in-edges and cancelling all but one): compared on random factories, not proved"]),
     "C07": dict(run=run_l1, trusted=L1_TRUST),
     "C03": dict(run=run_factory, trusted=L2_TRUST + ["the monitor's acceptance of the sampled traces is a run-time check; whole-factory conservation for every configuration is not a theorem"]),
     "C08": dict(run=run_factory, trusted=L2_TRUST),
